@@ -310,6 +310,174 @@ Example C04_session_example :
 Proof. exact ex_session_flush. Qed.
 
 
+(* ================================================================================================================
+   (6) SEVERAL FILES PER SESSION at image level (Model/VolSession2.v, Proofs/VolSession2Proofs.v, VolSession2Format.v):
+   k handles created by root_dir().create_file in the fixed root of one FAT12/16 image, sharing the image (FAT copies, data
+   area, root region) and the FS-info latch; calls on the handles in ANY interleaving, each under its own clock value;
+   File::flush / drop of the handles in ANY order, at any point.
+   Ghost per handle [ghost]: size, chain, and the entry [gh_e] the decoder's root scan lists at the handle's short slot.
+   [Sess2Inv g st gs es ls]: geometry; MVolInv (Props/C02.v: per-handle C02 invariant, chains pairwise disjoint); the root
+   scan is [es] without issue; every handle is bound to its entry (same slot, name, attribute bytes; handle NOT dirty =>
+   the entry on the device holds the handle's first cluster and size); the handles' slots are pairwise different.
+   [RunInv g im0 es0 ..] adds the frame relative to the image [im0] before the session ([Frame2]: the session's chains
+   consist of clusters free in im0; every other cluster keeps FAT value and data; no byte changes outside the FAT copies,
+   the root region and those clusters; a cluster free in im0 and in no chain is free) and "the entries of no handle are
+   the entries [es0] of im0".  [hnode g im gh] = NFile (gh_e gh) <chain gh_l gh, None iff no cluster> <the decoder's
+   content>. *)
+From FatVerif Require Import Model.VolSession2 Spec.WfFold Proofs.VolSession2Proofs Proofs.VolSession2Format Proofs.VolSession2Examples.
+From Coq Require Import Permutation.
+
+(* the state right after mount (no handle open) is in the invariant *)
+Theorem C04_session2_start : forall g, fixed_root_geom g -> forall im fi es0 ls,
+  parse_geom im = g -> FatProofs.bytes_ok im ->
+  fi_inv fstore (VolFileProofs.val_ft (ft_of g)) (store_of g im) fi (g_clusters g) ->
+  dir_scan (root_region_slots g im) 0 [] false = (es0, ls, []) ->
+  RunInv g im es0 {| s2_im := im; s2_fi := fi; s2_hs := [] |} [] es0 ls.
+Proof. exact run_inv_start. Qed.
+
+(* create_file WHILE other handles are open (dirty or not) keeps the invariant: a new clean handle on an empty file, its
+   entry inserted into the scan, a fresh short name; nothing outside the root region changes *)
+Theorem C04_session2_create_keeps_inv : forall g, fixed_root_geom g -> forall upper oem im0 es0 st gs es ls name now st',
+  RunInv g im0 es0 st gs es ls -> TimeProofs.datetime_valid now = true -> s2_create upper oem st name now = Some st' ->
+  exists gh es' x',
+    RunInv g im0 es0 st' (gs ++ [gh]) es' ls /\ new_ghost (name, now) gh /\
+    same_outside_root g (s2_im st) (s2_im st') /\ s2_fi st' = s2_fi st /\
+    s2_hs st' = s2_hs st ++ [x'] /\ sh_h x' = empty_file /\ s2_dirty x' = false /\
+    ~ In (e_sfn (gh_e gh)) (map e_sfn es) /\ (exists es1 es2, es = es1 ++ es2 /\ es' = es1 ++ gh_e gh :: es2).
+Proof. exact s2_create_run_inv. Qed.
+
+(* THE NODE OF A CLEAN HANDLE, in any state of any session: the decoder's root lists the handle's entry and decodes it to
+   the file with exactly the content the byte-array machine holds for the handle ([s2_views]: vol_content of the ghost),
+   size field = its length, chain = the decoder's walk (no cluster iff empty), ceil(size / cluster size) distinct
+   allocated clusters *)
+Theorem C04_session2_clean_handle_decodes : forall g, fixed_root_geom g -> forall st gs es ls i x gh,
+  Sess2Inv g st gs es ls -> nth_error (s2_hs st) i = Some x -> nth_error gs i = Some gh -> s2_dirty x = false ->
+  In (gh_e gh) es /\ node_of g (s2_im st) 23 (gh_e gh) = hnode g (s2_im st) gh /\
+  e_size (gh_e gh) = gh_sz gh /\ len_N (vol_content g (s2_im st) (gh_l gh) (gh_sz gh)) = gh_sz gh /\
+  (e_cluster (gh_e gh) = 0 <-> gh_sz gh = 0) /\
+  (e_cluster (gh_e gh) <> 0 ->
+     chain_from g (s2_im st) (e_cluster (gh_e gh)) (Abs.chain_fuel g) = Some (gh_l gh) /\ nth_error (gh_l gh) 0 = Some (e_cluster (gh_e gh))) /\
+  N.of_nat (length (gh_l gh)) = cdiv (g_cluster_size g) (gh_sz gh) /\ NoDup (gh_l gh) /\
+  (forall c, In c (gh_l gh) -> 2 <= c < g_clusters g + 2 /\ fat_val g (s2_im st) c <> FFree).
+Proof. exact handle_node. Qed.
+
+(* "flushed, and not modified again", read off the op list: [settled i ops c] = the last step of [ops] that addressed
+   handle i was its flush / drop.  Then handle i is clean at the end - no invariant needed *)
+Theorem C04_session2_settled_clean : forall g acc ops st i c,
+  (c = true -> forall x, nth_error (s2_hs st) i = Some x -> s2_dirty x = false) -> settled i ops c = true ->
+  forall x, nth_error (s2_hs (fst (s2_run g acc st ops))) i = Some x -> s2_dirty x = false.
+Proof. exact settled_clean. Qed.
+
+(* (a) mount of ANY FAT12/16 image whose root decodes without issue and whose tree has no broken chain ; create_file for
+   each of the k requests ; ANY steps, after which every handle is clean.  The run is a run of the multi-file byte-array
+   machine from k empty files; the decoder shows the OLD root nodes exactly as before and, besides them, ONE FILE NODE PER
+   HANDLE (Permutation: the new entries sit in whatever free slots the root had) with exactly the machine's content for
+   that file, its length in the size field, its chain - clusters that were free before, pairwise disjoint between the
+   files; no decode issue; labels and geometry as before; the frame is in [RunInv] *)
+Theorem C04_session2_flush_decodes : forall g, fixed_root_geom g -> forall acc upper oem im fi reqs ops st1 st2 rs,
+  parse_geom im = g -> FatProofs.bytes_ok im ->
+  fi_inv fstore (VolFileProofs.val_ft (ft_of g)) (store_of g im) fi (g_clusters g) ->
+  v_root_issues (abs im) = [] -> forallb node_intact (v_root (abs im)) = true ->
+  Forall (fun q => TimeProofs.datetime_valid (snd q) = true) reqs -> Forall s2op_ok ops ->
+  s2_creates upper oem {| s2_im := im; s2_fi := fi; s2_hs := [] |} reqs = Some st1 ->
+  s2_run g acc st1 ops = (st2, rs) ->
+  Forall (fun x => s2_dirty x = false) (s2_hs st2) ->
+  exists gs es1 es2 ls,
+    RunInv g im (map node_entry (v_root (abs im))) st2 gs es2 ls /\
+    bf_multi (map (fun _ => ([], 0)) reqs) (file_ops ops) rs = Some (s2_views g st2 gs) /\
+    Permutation (v_root (abs (s2_im st2))) (v_root (abs im) ++ map (hnode g (s2_im st2)) gs) /\
+    Forall2 (file_decoded g im (s2_im st2)) reqs gs /\ chains_disjoint gs /\
+    v_root_issues (abs (s2_im st2)) = [] /\ v_labels (abs (s2_im st2)) = v_labels (abs im) /\ parse_geom (s2_im st2) = g /\
+    (exists gs1, RunInv g im (map node_entry (v_root (abs im))) st1 gs1 es1 ls /\
+                 map e_sfn es2 = map e_sfn es1 /\ map e_lfn es2 = map e_lfn es1 /\
+                 same_outside_root g im (s2_im st1)).
+Proof. exact session2_decodes. Qed.
+
+(* what [file_decoded] says, spelled out (the clauses of C04_session_flush_decodes, per file) *)
+Theorem C04_session2_file_decoded_means : forall g im0 im q gh, file_decoded g im0 im q gh <->
+  (e_lfn (gh_e gh) = stored_lfn (fst q) /\ e_lfn_ok (gh_e gh) = true /\ e_attr (gh_e gh) = 0 /\
+   ShortName.sfn_legal_b (e_sfn (gh_e gh)) = true /\
+   e_size (gh_e gh) = len_N (vol_content g im (gh_l gh) (gh_sz gh)) /\
+   (e_cluster (gh_e gh) = 0 <-> vol_content g im (gh_l gh) (gh_sz gh) = []) /\
+   (e_cluster (gh_e gh) <> 0 ->
+      chain_from g im (e_cluster (gh_e gh)) (Abs.chain_fuel g) = Some (gh_l gh) /\ nth_error (gh_l gh) 0 = Some (e_cluster (gh_e gh))) /\
+   N.of_nat (length (gh_l gh)) = cdiv (g_cluster_size g) (len_N (vol_content g im (gh_l gh) (gh_sz gh))) /\ NoDup (gh_l gh) /\
+   (forall c, In c (gh_l gh) -> 2 <= c < g_clusters g + 2 /\ fat_val g im0 c = FFree /\ fat_val g im c <> FFree)).
+Proof. intros. reflexivity. Qed.
+
+(* (b) END TO END from ANY device content: format_volume (FAT12/16 request, root filling its sectors) ; create_file for
+   each of the k requests (valid scalar values; NO distinctness premise - the library's existence check provides it) ; ANY
+   interleaving of calls on the k handles, flushes and drops after which every handle is clean.  The decoder finds EXACTLY
+   k root nodes, one file per request, each with exactly the byte array of the multi-file machine, size field = its length,
+   a chain of ceil(length / cluster size) clusters, chains pairwise disjoint; free clusters = all minus the sum of those;
+   the label of the request; and NO well-formedness issue of Spec/Wf.v for any case folding that agrees with the
+   library's name matching (Props/C03.v C03_fold_agrees_judge: the judge's folding does) *)
+Theorem C04_session2_format_decodes : forall fold upper oem acc o ts im0 bs t im fi reqs ops st1 st2 rs,
+  builder_range o -> ts < 4294967296 -> FatProofs.bytes_ok im0 ->
+  format_boot_sector_validated o ts = Ok (bs, t) -> t <> Format.Fat32 ->
+  (o_max_root_dir_entries o * 32) mod o_bytes_per_sector o = 0 ->
+  format_image o ts im0 = Ok im ->
+  let g := geom_of (fbs_bpb bs) in
+  fi_inv fstore (VolFileProofs.val_ft (ft_of g)) (store_of g im) fi (g_clusters g) ->
+  fold_agrees upper fold ->
+  Forall (fun q => str_valid (fst q) = true /\ TimeProofs.datetime_valid (snd q) = true) reqs -> Forall s2op_ok ops ->
+  s2_creates upper oem {| s2_im := im; s2_fi := fi; s2_hs := [] |} reqs = Some st1 ->
+  s2_run g acc st1 ops = (st2, rs) ->
+  Forall (fun x => s2_dirty x = false) (s2_hs st2) ->
+  exists gs,
+    bf_multi (map (fun _ => ([], 0)) reqs) (file_ops ops) rs = Some (s2_views g st2 gs) /\
+    Permutation (v_root (abs (s2_im st2))) (map (hnode g (s2_im st2)) gs) /\
+    Forall2 (file_decoded g im (s2_im st2)) reqs gs /\ chains_disjoint gs /\
+    v_root_issues (abs (s2_im st2)) = [] /\ v_labels (abs (s2_im st2)) = expected_labels o /\
+    parse_geom (s2_im st2) = g /\
+    count_free g (s2_im st2) = sp_clusters (fbs_bpb bs) - total_clusters (g_cluster_size g) gs /\
+    Wf.wf_issues fold (s2_im st2) = [].
+Proof. exact format_session2_decodes. Qed.
+
+(* [total_clusters cs gs] = the sum over the files of ceil(size / cluster size) *)
+Theorem C04_session2_total_clusters_means : forall cs gs,
+  total_clusters cs gs = fold_right (fun gh a => cdiv cs (gh_sz gh) + a) 0 gs.
+Proof. reflexivity. Qed.
+
+(* non-vacuity and the concrete picture: "a.txt" and "b.txt" on the 64-sector FAT12 image, written alternately (clusters
+   2 -> 4 and 3 -> 5), flushed in reverse order *)
+Example C04_session2_example_hyps :
+  let g := parse_geom ex_vol_im in
+  fixed_root_geom g /\ FatProofs.bytes_ok ex_vol_im /\
+  fi_inv fstore (VolFileProofs.val_ft (ft_of g)) (store_of g ex_vol_im) ex_sfi (g_clusters g) /\
+  v_root_issues (abs ex_vol_im) = [] /\ forallb node_intact (v_root (abs ex_vol_im)) = true /\
+  Forall (fun q => str_valid (fst q) = true /\ TimeProofs.datetime_valid (snd q) = true) ex2_reqs /\ Forall s2op_ok ex2_ops /\
+  settled 0 ex2_ops true = true /\ settled 1 ex2_ops true = true.
+Proof. exact ex2_hyps. Qed.
+
+Example C04_session2_example :
+  match vol_session2 ex_U ex_O false ex_vol_im ex_sfi ex2_reqs ex2_ops with
+  | Some (st, rs) =>
+    rs = [RCount 512; RCount 512; RCount 3; RCount 2] /\
+    bf_multi [([], 0); ([], 0)] (file_ops ex2_ops) rs = Some [(ex2_a, 515); (ex2_b, 514)] /\
+    (exists ea eb, v_root (abs (s2_im st)) = [NFile ea (Some [2; 4]) ex2_a; NFile eb (Some [3; 5]) ex2_b] /\
+                   e_lfn ea = ex_sname /\ e_size ea = 515 /\ e_cluster ea = 2 /\ e_sfn_slot ea = 2 /\
+                   e_lfn eb = ex2_bname /\ e_size eb = 514 /\ e_cluster eb = 3 /\ e_sfn_slot eb = 4) /\
+    v_root_issues (abs (s2_im st)) = [] /\ Wf.wf_issues (fun l => l) (s2_im st) = [] /\
+    count_free (parse_geom ex_vol_im) (s2_im st) = 56 /\
+    img_read (s2_im st) (512 + 3) 6 = [4; 80; 0; 255; 255; 255] /\
+    map s2_dirty (s2_hs st) = [false; false]
+  | None => False
+  end.
+Proof. exact ex2_session. Qed.
+
+(* with only b flushed, a (still dirty) shows as an empty file and its clusters 2 and 4 - BETWEEN those of b - are lost *)
+Example C04_session2_example_one_flushed :
+  match vol_session2 ex_U ex_O false ex_vol_im ex_sfi ex2_reqs (ex2_writes ++ [SFlush 1]) with
+  | Some (st, rs) =>
+    (exists ea eb, v_root (abs (s2_im st)) = [NFile ea None []; NFile eb (Some [3; 5]) ex2_b] /\ e_size ea = 0 /\ e_size eb = 514) /\
+    Wf.wf_issues (fun l => l) (s2_im st) = [Wf.WLost 2; Wf.WLost 4] /\
+    map s2_dirty (s2_hs st) = [true; false]
+  | None => False
+  end.
+Proof. exact ex2_one_flushed. Qed.
+
+
 Print Assumptions C04_image_write_frame.
 Print Assumptions C04_written_entry_decodes.
 Print Assumptions C04_fat12_values_agree.
@@ -330,3 +498,11 @@ Print Assumptions C04_session_flush_decodes.
 Print Assumptions C04_session_wf_premises.
 Print Assumptions C04_session_decode_frame.
 Print Assumptions C04_session_format_decodes.
+Print Assumptions C04_session2_start.
+Print Assumptions C04_session2_create_keeps_inv.
+Print Assumptions C04_session2_clean_handle_decodes.
+Print Assumptions C04_session2_settled_clean.
+Print Assumptions C04_session2_flush_decodes.
+Print Assumptions C04_session2_file_decoded_means.
+Print Assumptions C04_session2_format_decodes.
+Print Assumptions C04_session2_total_clusters_means.
